@@ -301,7 +301,7 @@ StepInit(ev) == /\ song' = [none |-> TRUE] /\ cfg' = [Cfg0 EXCEPT !.rate = ev.ra
                 /\ cnt' = [cnt EXCEPT !.execs = @ + 1]
 \* everything derived from the song is computed once here (TLC does not memoise operator applications)
 MkSong(ev) ==
-  LET s0 == [div |-> ev.div, fmt |-> ev.fmt, tracks |-> ev.tracks]
+  LET s0 == [div |-> ev.div, fmt |-> ev.fmt, tracks |-> NormTracks(ev.tracks)]      \* loop controllers get their roles (SmfRef)
       s1 == s0 @@ [tempi |-> TempoEvents(s0)]
       its == AllItems(s1)
   IN s1 @@ [its |-> its, len |-> (CHOOSE m \in { its[i].t : i \in DOMAIN its } : \A i \in DOMAIN its : its[i].t <= m) + 1000000]
